@@ -138,8 +138,22 @@ def check_sat(state, extra, timeout_ms=2000, light=False):
 
 
 def _sign_atom(state, f):
-    """(canonical polynomial key, set of allowed signs) for an atomic sign condition on a polynomial, else None.
+    """(canonical polynomial key, set of allowed signs) for a sign condition on ONE polynomial, else None: an atom, or a boolean
+    combination of atoms about the same polynomial (`(p < 0) | (p > 0)` is `p != 0`, its negation pins p to zero).
     The polynomial is normalised so that p and -p (and positive multiples) share one key."""
+    if f[0] in ("and", "or") and len(f) >= 3:
+        parts = [_sign_atom(state, g) for g in f[1:]]
+        if any(a is None for a in parts) or len({a[0] for a in parts}) != 1:
+            return None
+        allowed = set(parts[0][1])
+        for a in parts[1:]:
+            allowed = (allowed & a[1]) if f[0] == "and" else (allowed | a[1])
+        return parts[0][0], allowed
+    if f[0] == "not" and f[1][0] in ("and", "or", "not"):
+        inner = _sign_atom(state, f[1])
+        if inner is None:
+            return None
+        return inner[0], {-1, 0, 1} - inner[1]
     neg = False
     while f[0] == "not":
         neg = not neg
@@ -165,7 +179,7 @@ def _sign_atom(state, f):
 
 def _sign_facts(state):
     facts = {}
-    for g in list(state.path) + [h for h in state.hyps if h[0] in ("lt", "le", "eq", "not")]:
+    for g in list(state.path) + [h for h in state.hyps if h[0] in ("lt", "le", "eq", "not", "and", "or")]:
         a = _sign_atom(state, strip_inf(state, g))
         if a is not None:
             facts[a[0]] = facts.get(a[0], {-1, 0, 1}) & a[1]
